@@ -17,6 +17,7 @@ the same correlation id, and for crashes that fall between two event handlings
 """
 import json
 import random
+import re
 import sys
 
 from checks import common
@@ -144,7 +145,49 @@ def run_crash(scn, seed, point, downtime):
     return res, state, mon
 
 
-def check_point(scn, seed, point, downtime, ref_out, arn):
+def request_counts(res):
+    """How often each (function, payload) was requested from the workers."""
+    out = {}
+    for r in res.world.workers.requests:
+        # history-dependent text (event ids start again at 1 after a restart with the in-memory history) removed
+        k = (r["fn"], re.sub(r"\(entered at the event id #\d+\)", "(entered at the event id #N)",
+                             json.dumps(r["payload"], sort_keys=True)))
+        out[k] = out.get(k, 0) + 1
+    return out
+
+
+def in_batched_map(machine, fn, inside=False):
+    """True if the Task calling `fn` sits (at any depth) inside a Map state with a non-zero MaxConcurrency."""
+    for st in (machine.get("States") or {}).values():
+        if st.get("Type") == "Task" and str(st.get("Resource", "")).endswith(":" + fn) and inside:
+            return True
+        batched = inside or (st.get("Type") == "Map" and bool(st.get("MaxConcurrency")))
+        for sub in list(st.get("Branches") or []) + [st[k] for k in ("ItemProcessor", "Iterator") if isinstance(st.get(k), dict)]:
+            if in_batched_map(sub, fn, batched):
+                return True
+    return False
+
+
+def requested_again(res, ref_reqs, scn, ctx, witness):
+    """
+    The engine was idle at every crash, so every request of the crash-free run that had been sent stays sent and the
+    others are sent once: no (function, payload) may be requested more often than in the crash-free run (the
+    generators give every Task its own function and Map items distinct payloads).  This also sees a task that is
+    requested again under a NEW correlation id, e.g. because the state that launches it was entered a second time.
+    """
+    got = request_counts(res)
+    extra = sorted((k, n - ref_reqs.get(k, 0)) for k, n in got.items() if n > ref_reqs.get(k, 0))
+    if not extra:
+        return []
+    (fn, payload), n = extra[0]
+    if all(in_batched_map(m["definition"], k[0]) for m in scn["machines"].values() for k, _ in extra):
+        witness = "idle:map-batch-re-entered"
+    return [{"property": PROP, "rule": "task-requested-again", "witness": witness,
+             "detail": "%s (engine idle): %s(%s) was requested %d more time(s) than in the crash-free run; %d "
+                       "(function, payload) pairs over-requested" % (ctx, fn, payload[:60], n, len(extra))}]
+
+
+def check_point(scn, seed, point, downtime, ref_out, arn, ref_reqs=None):
     res, state, mon = run_crash(scn, seed, point, downtime)
     findings = []
     fam = scn["machines"]["m"].get("family", "?")
@@ -170,6 +213,8 @@ def check_point(scn, seed, point, downtime, ref_out, arn):
     if dup:
         findings.append({"property": PROP, "rule": "task-requested-again", "witness": None,
                          "detail": "%s: correlation id %s was requested %d times" % (ctx, dup[0], seen[dup[0]])})
+    if state["idle"] and ref_reqs is not None:
+        findings += requested_again(res, ref_reqs, scn, ctx, classify_witness("task-requested-again", point, state, res))
     out = outcome(res, arn)
     if state["idle"] and out is not None and ref_out is not None and out != ref_out and \
             not any(f["rule"] in ("never-terminal", "terminal-twice") for f in findings):
@@ -272,7 +317,7 @@ def run_one(item, extra):
         points = rng.sample(points, extra["sample_points"])
     for p in points:
         dt = rng.choice(DOWNTIMES)
-        res, state, findings = check_point(scn, seed, p, dt, ref_out, arn)
+        res, state, findings = check_point(scn, seed, p, dt, ref_out, arn, request_counts(ref))
         total["evaluations"] += 1
         total["sim_seconds"] += res.sim.now - res.sim.epoch
         total["steps"] += res.sim.steps
@@ -481,6 +526,7 @@ def check_multi(case, seed):
                 # Task is in flight): the broker hands it to another instance, the reply still goes to the dead one's
                 sits.add("shared-queue-event-moved-to-other-instance")
         wit = "idle" + "".join(":" + x for x in sorted(sits))
+        findings += requested_again(res, request_counts(ref), scn, ctx, wit)
         for ename, arn in sorted(res.exec_arns.items()):
             out, ref_out = outcome(res, arn), outcome(ref, ref.exec_arns.get(ename))
             if out is not None and ref_out is not None and out != ref_out:
@@ -551,7 +597,7 @@ def main(argv):
         ref, info = reference(scn, rec["seed"])
         arn = ref.exec_arns.get("e1")
         res, state, findings = check_point(scn, rec["seed"], tuple(rec["crash_point"]), rec["downtime"],
-                                           outcome(ref, arn), arn)
+                                           outcome(ref, arn), arn, request_counts(ref))
         same = [f for f in findings if f["rule"] == rec["rule"]]
         print("replay %s: %s" % (argv[1], "REPRODUCED rule=%s%s" % (rec["rule"], common.digest_note(rec, same)) if same else "not reproduced"))
         return 1 if same else 0
